@@ -162,6 +162,21 @@ def run_xsec(case, v):
         nc.append(b.cross_section)
         v.check(a.total_cross_section == b.total_cross_section, "total cross section does not depend on the interaction kind")
     tot, cc, nc = map(np.array, (tot, cc, nc))
+    # one particle walked along the same ladder, its energy and interaction kind re-assigned at every step: same numbers
+    walker = pp.Particle(case["pid"], (0, 0, -1), (0, 0, 1), float(Es[0]), interaction_model=model, interaction_type="cc")
+    w_tot, w_cc, w_nc, w_len = [], [], [], []
+    for E in Es[::7]:
+        walker.energy = float(E)
+        walker.interaction.kind = "cc"
+        w_cc.append(walker.interaction.cross_section)
+        w_len.append(walker.interaction.total_interaction_length)
+        walker.interaction.kind = "nc"
+        w_nc.append(walker.interaction.cross_section)
+        w_tot.append(walker.interaction.total_cross_section)
+    v.close("a particle whose energy and interaction kind are re-assigned reports the cross sections of a fresh one",
+            float(max(np.max(np.abs(np.array(w_cc) / cc[::7] - 1)), np.max(np.abs(np.array(w_nc) / nc[::7] - 1)), np.max(np.abs(np.array(w_tot) / tot[::7] - 1)))), 1e-12)
+    import scipy.constants
+    v.close("interaction length == 1/(N_A sigma_total) along the walk", float(np.max(np.abs(np.array(w_len) * scipy.constants.N_A * tot[::7] - 1))), 1e-12)
     v.check(bool(np.all(cc > 0) and np.all(nc > 0) and np.all(tot > 0)), "cross sections are positive")
     v.check(bool(np.all(np.diff(tot) > 0) and np.all(np.diff(cc) > 0) and np.all(np.diff(nc) > 0)), "cross sections increase with energy")
     if case["model"] == "CTW":
@@ -193,8 +208,9 @@ def run_tree(case, v):
             continue
         kids = [mk() for _ in range(int(rng.integers(1, 4)))]
         single = len(kids) == 1 and rng.random() < 0.5
-        ev.add_children(par, kids[0] if single else kids)
-        ops.append("add_children(level %d, %s)" % (level[id(par)], "single" if single else "list[%d]" % len(kids)))
+        form = "single" if single else str(rng.choice(["list", "tuple", "object array"]))
+        ev.add_children(par, kids[0] if single else {"list": list, "tuple": tuple, "object array": lambda k_: np.array(k_, dtype=object)}[form](kids))
+        ops.append("add_children(level %d, %s[%d])" % (level[id(par)], form, len(kids)))
         for c in kids:
             parent[id(c)] = par
             children[id(c)] = []
